@@ -15,6 +15,10 @@ type Cfg struct {
 	MaxMemTables int   `json:"max_memtables"`
 	SyncMode     int   `json:"sync_mode"` // 0 none, 1 batch, 2 immediate
 	SyncBytes    int64 `json:"sync_bytes"`
+	// NoQuiesce is for the harness, not the engine: the runner does not wait for
+	// the background flush goroutine between steps, so flushes run while the
+	// client goes on writing and reading
+	NoQuiesce bool `json:"no_quiesce,omitempty"`
 }
 
 // Val describes a value without carrying its bytes: the content is a pure
